@@ -346,10 +346,10 @@ def run_check(prop, tier='quick', seed=0, jobs=None, only=None, write_baseline=F
                     results[i] = r2
     finally:
         pool.close()
-    return aggregate(prop, tier, seed, results, t_start, write_baseline, extra_mod, quiet)
+    return aggregate(prop, tier, seed, results, t_start, write_baseline, extra_mod, quiet, partial=bool(only))
 
 
-def aggregate(prop, tier, seed, results, t_start, write_baseline, extra_mod, quiet):
+def aggregate(prop, tier, seed, results, t_start, write_baseline, extra_mod, quiet, partial=False):
     from . import contract as C
     kf = load_known_findings()
     baseline = load_baseline()
@@ -599,19 +599,25 @@ def aggregate(prop, tier, seed, results, t_start, write_baseline, extra_mod, qui
     }
     if checker_errors:
         evidence['coverage']['checker_errors'] = checker_errors[:20]
-    os.makedirs(os.path.join(ROOT, 'evidence'), exist_ok=True)
-    ev_path = os.path.join(ROOT, 'evidence', f'{prop}.json')
+    # a run restricted with --only is a debugging aid: its (partial) evidence goes to scratch/ and is not validated
+    ev_dir = os.path.join(ROOT, 'scratch', 'partial') if partial else os.path.join(ROOT, 'evidence')
+    os.makedirs(ev_dir, exist_ok=True)
+    ev_path = os.path.join(ev_dir, f'{prop}.json')
     with open(ev_path, 'w') as fh:
         json.dump(evidence, fh, indent=1, default=repr)
-    with open(os.path.join(ROOT, 'evidence', f'{prop}.obligations.jsonl'), 'w') as fh:
+    with open(os.path.join(ev_dir, f'{prop}.obligations.jsonl'), 'w') as fh:
         for ob in obligations:
             fh.write(json.dumps(ob, default=repr) + '\n')
     try:
+        if partial:
+            raise StopIteration
         import jsonschema
         schema_path = '/root/.vp/EVIDENCE.schema.json'
         if not os.path.exists(schema_path):
             schema_path = os.path.join(ROOT, 'schemas', 'EVIDENCE.schema.json')
         jsonschema.validate(evidence, json.load(open(schema_path)))
+    except StopIteration:
+        pass
     except Exception as e:
         checker_errors.append(f'evidence does not validate: {e}')
     if write_baseline:
